@@ -47,6 +47,16 @@ func genRules(t *rapid.T, tier string) (*World, any) {
 		opts.CRLF = true
 		feat["crlf"] = true
 	}
+	if !opts.CRLF && chance(t, 10, "mixed-eol") {
+		for i := 0; i < 7; i++ {
+			v := 0
+			if chance(t, 30, "mixed-eol-here") {
+				v = 1
+			}
+			opts.MixedEOL = append(opts.MixedEOL, v)
+		}
+		feat["mixed-line-ends"] = true
+	}
 	if chance(t, 25, "nofinal") {
 		opts.NoFinalNL = true
 		feat["no-final-newline"] = true
@@ -165,6 +175,16 @@ func genRules(t *rapid.T, tier string) (*World, any) {
 		}
 		prog := drawProgram(t, ProgOpts{Spicy: true, Flags: true, PrefixSufx: chance(t, 30, "ps"), Blocks: chance(t, 30, "blk"), Includes: []string{"inc1"}, Excludes: []string{"exc1"}, Pairs: true, MaxLines: 6}, "prog")
 		content := joinLines(prog.Lines)
+		if last := lastOf(prog.Lines); !strings.HasPrefix(strings.TrimSpace(last), "##!") && last != "" && chance(t, 10, "last-trailing") {
+			// white space at the end of the last entry is part of the expression, for update as for generate
+			content = strings.TrimSuffix(content, "\n") + pick(t, []string{" ", "\t", "  "}, "last-trailing-v") + pick(t, []string{"\n", ""}, "last-trailing-nl")
+			feat["last-entry-ends-in-blank"] = true
+		}
+		if chance(t, 6, "leading-blank-expression") {
+			// every alternative starts with a blank: so does the expression
+			content = "[ ]get" + pick(t, []string{"", "[0-9]"}, "lb1") + "\n[ ]post\n"
+			feat["expression-starts-with-blank"] = true
+		}
 		if chance(t, 5, "bom") {
 			content = "\ufeff" + content // a byte order mark means the same to generate, update and compare
 			feat["byte-order-mark"] = true
@@ -481,7 +501,7 @@ func removeFile(sb *Sandbox, rel string) error {
 }
 
 func init() {
-	rule := "scenario = rules file in CRS layout rendered from a structure that knows the byte span of every operand (1-5 rules, chains of length 0-3, @rx / !@rx / other operators, comments incl. commented-out SecRule lines, (12%) comments that mention `id:NNNNNN`, (8%) a neighbour whose id starts with another rule's id, CRLF, missing final newline; stored operands containing \\\"@rx , \\\" \\x5c, $, blanks, back-ticks) + 1-3 assembly files whose programs contain quotes, backslashes, blanks, `@rx ` and `\" \\` text, flags, prefixes, blocks and includes; each command under its own schedule (map iteration + directory order). "
+	rule := "scenario = rules file in CRS layout rendered from a structure that knows the byte span of every operand (1-5 rules, chains of length 0-3, @rx / !@rx / other operators, comments incl. commented-out SecRule lines, (12%) comments that mention `id:NNNNNN`, (8%) a neighbour whose id starts with another rule's id, CRLF, missing final newline; stored operands containing \\\"@rx , \\\" \\x5c, $, blanks, back-ticks) + 1-3 assembly files (15%: two of them with the same program) whose programs contain quotes, backslashes, blanks, `@rx ` and `\" \\` text, flags, prefixes, blocks and includes; each command under its own schedule (map iteration + directory order). "
 	register(&Property{
 		ID: "C11", Level: "exploration",
 		Rule: rule + "History: generate T; update T. Oracle: the rules file equals the original with exactly the target's span replaced by generate's stdout (byte for byte: other rules, comments, line endings, final newline or its absence) and every other file's snapshot is unchanged. Non-trivial = the program compiles and update ran; distinct = distinct worlds.",
